@@ -37,7 +37,8 @@ structure CaseEnt where
   deriving Repr, DecidableEq, Inhabited
 
 inductive GotoKind where
-  | brk | cont | user
+  | brk | cont
+  | user (l : Nat)             -- `goto l;` (the label name is kept for the correspondence with the source)
   deriving Repr, DecidableEq, Inhabited
 
 /-- `Node` restricted to statements; every unique label is the number `n` of `.L..n` -/
@@ -55,7 +56,7 @@ inductive Stmt where
   | default_ (lbl : Nat) (s : Stmt)
   | goto_ (kind : GotoKind) (target : Nat)     -- ND_GOTO with `unique_label`
   | gotoN (l : Nat)                            -- ND_GOTO with `label`, not yet resolved
-  | gotoVal (target : Nat)                     -- `goto *&&L` resolved
+  | gotoVal (l : Nat) (target : Nat)           -- `goto *&&L` resolved
   | gotoValN (l : Nat)
   | label (l : Nat) (u : Nat) (s : Stmt)
   | ret
@@ -216,10 +217,10 @@ def resolve (labels : List (Nat × Nat)) : Stmt → Except PErr Stmt
     | .ok s' => .ok (.label l u s')
   | .gotoN l => match lookupLabel labels l with
     | none => .error .undeclaredLabel
-    | some u => .ok (.goto_ .user u)
+    | some u => .ok (.goto_ (.user l) u)
   | .gotoValN l => match lookupLabel labels l with
     | none => .error .undeclaredLabel
-    | some u => .ok (.gotoVal u)
+    | some u => .ok (.gotoVal l u)
   | s => .ok s
 
 /-- `function()` for `void f(void) { body }`: `__func__` and `__FUNCTION__` take two unique
@@ -300,48 +301,143 @@ def genStmt : Stmt → Nat → List CIns × Nat
   | .skip, c => ([], c)
   | .marker k, c => ([.call (.m k)], c)
   | .seq a b, c =>
-    let (x, c1) := genStmt a c
-    let (y, c2) := genStmt b c1
-    (x ++ y, c2)
+    let x := genStmt a c
+    let y := genStmt b x.2
+    (x.1 ++ y.1, y.2)
   | .block s, c => genStmt s c
-  | .ifte k t e, c =>
-    let (x, c1) := genStmt t (c + 1)
-    let (y, c2) := genStmt e c1
-    ([.call (.c k), cmpZero, .je (.else_ c)] ++ x ++ [.jmp (.end_ c), .label (.else_ c)] ++ y ++
-      [.label (.end_ c)], c2)
+  | .ifte k t e, c =>                                   -- int c = count();
+    let x := genStmt t (c + 1)
+    let y := genStmt e x.2
+    ([.call (.c k), cmpZero, .je (.else_ c)] ++ x.1 ++ [.jmp (.end_ c), .label (.else_ c)] ++ y.1 ++
+      [.label (.end_ c)], y.2)
   | .for_ init cond inc brk cont body, c =>
-    let (x, c1) := genStmt body (c + 1)
+    let x := genStmt body (c + 1)
     (callOpt init ++ [.label (.begin_ c)] ++
       (match cond with
        | some k => [.call (.c k), cmpZero, .je (.u brk)]
        | none => []) ++
-      x ++ [.label (.u cont)] ++ callOpt inc ++ [.jmp (.begin_ c), .label (.u brk)], c1)
+      x.1 ++ [.label (.u cont)] ++ callOpt inc ++ [.jmp (.begin_ c), .label (.u brk)], x.2)
   | .doWhile brk cont body k, c =>
-    let (x, c1) := genStmt body (c + 1)
-    ([.label (.begin_ c)] ++ x ++
-      [.label (.u cont), .call (.c k), cmpZero, .jne (.begin_ c), .label (.u brk)], c1)
+    let x := genStmt body (c + 1)
+    ([.label (.begin_ c)] ++ x.1 ++
+      [.label (.u cont), .call (.c k), cmpZero, .jne (.begin_ c), .label (.u brk)], x.2)
   | .switch_ w64 _ k cases dflt brk body, c =>
-    let (x, c1) := genStmt body c
-    ([.call (.inp k)] ++ ladder w64 cases dflt brk ++ x ++ [.label (.u brk)], c1)
+    let x := genStmt body c
+    ([.call (.inp k)] ++ ladder w64 cases dflt brk ++ x.1 ++ [.label (.u brk)], x.2)
   | .case_ l _ _ s, c =>
-    let (x, c1) := genStmt s c
-    (.label (.u l) :: x, c1)
+    let x := genStmt s c
+    (.label (.u l) :: x.1, x.2)
   | .default_ l s, c =>
-    let (x, c1) := genStmt s c
-    (.label (.u l) :: x, c1)
+    let x := genStmt s c
+    (.label (.u l) :: x.1, x.2)
   | .goto_ _ t, c => ([.jmp (.u t)], c)
   | .gotoN _, c => ([.jmp (.u 0)], c)          -- never generated after `resolve` succeeded
-  | .gotoVal t, c => ([.lea (.u t), .jmpInd], c)
+  | .gotoVal _ t, c => ([.lea (.u t), .jmpInd], c)
   | .gotoValN _, c => ([.lea (.u 0), .jmpInd], c)
   | .label _ u s, c =>
-    let (x, c1) := genStmt s c
-    (.label (.u u) :: x, c1)
+    let x := genStmt s c
+    (.label (.u u) :: x.1, x.2)
   | .ret, c => ([.jmp .ret], c)
 
 /-- body of a function followed by its `.L.return.<fn>:`; `count0` = value of `count()`'s
     counter when `emit_text` reaches the function -/
 def genFn (st : Stmt) (count0 : Nat) : List CIns :=
   (genStmt st count0).1 ++ [.label .ret]
+
+/-! ### what the parsed tree says about itself (used in the statements of C03_break_binds / C03_labels) -/
+
+/-- forget the labels: the source statement a parsed statement came from -/
+def erase : Stmt → SStmt
+  | .skip => .skip
+  | .marker k => .marker k
+  | .seq a b => .seq (erase a) (erase b)
+  | .block s => .block (erase s)
+  | .ifte c t e => .ifte c (erase t) (erase e)
+  | .for_ i c n _ _ body => .for_ i c n (erase body)
+  | .doWhile _ _ body c => .doWhile (erase body) c
+  | .switch_ w u k _ _ _ body => .switch_ w u k (erase body)
+  | .case_ _ lo hi s => .case_ lo hi (erase s)
+  | .default_ _ s => .default_ (erase s)
+  | .goto_ .brk _ => .break_
+  | .goto_ .cont _ => .continue_
+  | .goto_ (.user l) _ => .goto_ l
+  | .gotoN l => .goto_ l
+  | .gotoVal l _ => .gotoVal l
+  | .gotoValN l => .gotoVal l
+  | .label l _ s => .label l (erase s)
+  | .ret => .ret
+
+/-- the `case` nodes that belong to the innermost switch enclosing this statement (nested
+    switches are opaque), in source order -/
+def caseEnts : Stmt → List CaseEnt
+  | .seq a b => caseEnts a ++ caseEnts b
+  | .block s => caseEnts s
+  | .ifte _ t e => caseEnts t ++ caseEnts e
+  | .for_ _ _ _ _ _ body => caseEnts body
+  | .doWhile _ _ body _ => caseEnts body
+  | .case_ l lo hi s => ⟨l, lo, hi⟩ :: caseEnts s
+  | .default_ _ s => caseEnts s
+  | .label _ _ s => caseEnts s
+  | _ => []
+
+/-- likewise the labels of the `default` nodes -/
+def dflts : Stmt → List Nat
+  | .seq a b => dflts a ++ dflts b
+  | .block s => dflts s
+  | .ifte _ t e => dflts t ++ dflts e
+  | .for_ _ _ _ _ _ body => dflts body
+  | .doWhile _ _ body _ => dflts body
+  | .case_ _ _ _ s => dflts s
+  | .default_ l s => l :: dflts s
+  | .label _ _ s => dflts s
+  | _ => []
+
+/-- the `default_case` a switch node records is one of the `default`s of its body, and is
+    absent only if the body has none -/
+def DfltOf : Option Nat → List Nat → Prop
+  | none, ds => ds = []
+  | some d, ds => d ∈ ds
+
+/-- `Bound b c st`: with `b`/`c` the break/continue labels of the innermost enclosing
+    loop-or-switch / loop *outside* `st`, every `break`/`continue` node of `st` jumps to the
+    label of **its** innermost enclosing construct, and every switch node's case list and
+    default are exactly the `case`/`default` nodes of its own body. -/
+def Bound (b c : Option Nat) : Stmt → Prop
+  | .seq x y => Bound b c x ∧ Bound b c y
+  | .block s => Bound b c s
+  | .ifte _ t e => Bound b c t ∧ Bound b c e
+  | .for_ _ _ _ brk cont body => Bound (some brk) (some cont) body
+  | .doWhile brk cont body _ => Bound (some brk) (some cont) body
+  | .switch_ _ _ _ cases dflt brk body =>
+    Bound (some brk) c body ∧ (∀ e, e ∈ cases ↔ e ∈ caseEnts body) ∧ DfltOf dflt (dflts body)
+  | .case_ _ _ _ s => Bound b c s
+  | .default_ _ s => Bound b c s
+  | .label _ _ s => Bound b c s
+  | .goto_ .brk t => b = some t
+  | .goto_ .cont t => c = some t
+  | _ => True
+
+/-- unique labels whose definition `genStmt` emits for this statement -/
+def defs : Stmt → List Nat
+  | .seq a b => defs a ++ defs b
+  | .block s => defs s
+  | .ifte _ t e => defs t ++ defs e
+  | .for_ _ _ _ brk cont body => defs body ++ [cont, brk]
+  | .doWhile brk cont body _ => defs body ++ [cont, brk]
+  | .switch_ _ _ _ _ _ brk body => defs body ++ [brk]
+  | .case_ l _ _ s => l :: defs s
+  | .default_ l s => l :: defs s
+  | .label _ u s => u :: defs s
+  | _ => []
+
+/-- labels a code sequence defines / jumps to -/
+def labelsOf (code : List CIns) : List Lbl :=
+  code.filterMap fun i => match i with | .label l => some l | _ => none
+
+def targetsOf (code : List CIns) : List Lbl :=
+  code.filterMap fun i => match i with
+    | .jmp l => some l | .je l => some l | .jne l => some l | .jbe l => some l | .lea l => some l
+    | _ => none
 
 /-- `genStmt` with the function epilogue label, also returning the advanced `count()` -/
 def genFnC (st : Stmt) (count0 : Nat) : List CIns × Nat :=
